@@ -235,7 +235,7 @@ func (la *lockAnalyzer) mayReturn(call *ast.CallExpr) bool {
 }
 
 // analyze runs the dataflow on one body.
-func (la *lockAnalyzer) analyze(name string, body *ast.BlockStmt, deferredLit, goLit bool) *LockAnalysis {
+func (la *lockAnalyzer) analyze(name string, body *ast.BlockStmt, deferredLit, goLit bool, initHeld map[string]bool) *LockAnalysis {
 	res := &LockAnalysis{Name: name, Body: body, HeldAt: map[ast.Node]map[string]bool{}, IsDeferredLit: deferredLit, IsGoLit: goLit}
 	g := cfg.New(body, la.mayReturn)
 
@@ -260,6 +260,9 @@ func (la *lockAnalyzer) analyze(name string, body *ast.BlockStmt, deferredLit, g
 		in[i] = lockState{pending: map[string]token.Pos{}, held: map[string]bool{}, deferredRel: map[string]bool{}}
 	}
 	in[0].reached = true
+	for k := range initHeld {
+		in[0].held[k] = true
+	}
 
 	apply := func(st *lockState, ev lockEvent, record bool) {
 		if ev.acquire {
@@ -412,42 +415,48 @@ func (la *lockAnalyzer) analyzeFunc(fd *ast.FuncDecl, name string) []*LockAnalys
 	if fd.Body == nil {
 		return nil
 	}
-	out = append(out, la.analyze(name, fd.Body, false, false))
+	top := la.analyze(name, fd.Body, false, false, nil)
+	out = append(out, top)
 	n := 0
-	var walk func(node ast.Node)
-	walk = func(node ast.Node) {
+	var walk func(node ast.Node, parent *LockAnalysis)
+	walk = func(node ast.Node, parent *LockAnalysis) {
 		ast.Inspect(node, func(m ast.Node) bool {
 			switch m := m.(type) {
 			case *ast.DeferStmt:
 				if lit, ok := m.Call.Fun.(*ast.FuncLit); ok {
 					n++
-					out = append(out, la.analyze(name+"$defer"+itoa(n), lit.Body, true, false))
-					walk(lit.Body)
-					for _, a := range m.Call.Args {
-						walk(a)
+					// a deferred literal runs at function exit: the locks held when it
+					// was registered and released only by itself are still held
+					a := la.analyze(name+"$defer"+itoa(n), lit.Body, true, false, parent.HeldAt[m])
+					out = append(out, a)
+					walk(lit.Body, a)
+					for _, arg := range m.Call.Args {
+						walk(arg, parent)
 					}
 					return false
 				}
 			case *ast.GoStmt:
 				if lit, ok := m.Call.Fun.(*ast.FuncLit); ok {
 					n++
-					out = append(out, la.analyze(name+"$go"+itoa(n), lit.Body, false, true))
-					walk(lit.Body)
-					for _, a := range m.Call.Args {
-						walk(a)
+					a := la.analyze(name+"$go"+itoa(n), lit.Body, false, true, nil)
+					out = append(out, a)
+					walk(lit.Body, a)
+					for _, arg := range m.Call.Args {
+						walk(arg, parent)
 					}
 					return false
 				}
 			case *ast.FuncLit:
 				n++
-				out = append(out, la.analyze(name+"$lit"+itoa(n), m.Body, false, false))
-				walk(m.Body)
+				a := la.analyze(name+"$lit"+itoa(n), m.Body, false, false, nil)
+				out = append(out, a)
+				walk(m.Body, a)
 				return false
 			}
 			return true
 		})
 	}
-	walk(fd.Body)
+	walk(fd.Body, top)
 	return out
 }
 
